@@ -265,6 +265,8 @@ def run(tier: str) -> int:
         chk.sample({k: metas[id_][k] for k in ("block", "path", "src", "out")})
     for id_ in list(lmeta)[:: max(1, len(lmeta) // 2)][:2]:
         chk.sample(lmeta[id_])
+    from harness import table
+    table.judge(chk, tier, "C04")
     chk.exhaustive = tier == "thorough"
     chk.explanation = "Code.tla explored completely; thorough replays every block, quick a third plus every block with a fence look-alike"
     return chk.finish()
